@@ -467,7 +467,12 @@ register("C16", {
             "of its kind; a stalled operation must fail with the matching exception at exactly "
             "start + value; (b) pool deadline before / exactly at / after the instant a "
             "connection frees up, and zero pool time-out with and without capacity, on asyncio "
-            "(fifo+shuffle) and pre-emptive threads; all runs non-trivial",
+            "(fifo+shuffle), trio and pre-emptive threads; (c) a request re-queued after "
+            "having been handed a connecting connection that turns out to be HTTP/1.1: "
+            "PoolTimeout only after a full pool time-out spent in the queue (queue residency "
+            "observed step by step); (d) at L2, HTTP/2 uploads beyond the server's window "
+            "(reads made while waiting for credit) and time-outs of exactly 0; all runs "
+            "non-trivial",
     "assumptions": ["seam L1: the simulated stream honours the timeout it is given; what is "
                     "checked is which value httpcore passes to which operation",
                     "seam L2 (three families): the real SyncBackend's settimeout() values reach "
